@@ -562,6 +562,24 @@ fn main() {{
             ),
         ),
         (
+            "dyn_collect! on a sized type with a Cell holding a pointer".into(),
+            body(
+                "struct H<'a>(Cell<Option<C<'a>>>);\ngc_arena::collect::dyn_collect!(<'a> H<'a>);\n#[derive(Collect)]\n#[collect(no_drop)]\nstruct Root<'gc> { h: Gc<'gc, H<'gc>> }",
+                "Root { h: Gc::new(mc, H(Cell::new(None))) }",
+                "root.h.0.set(Some(child));",
+                "root.h.0.get().is_some()",
+            ),
+        ),
+        (
+            "dyn_collect! on a sized type, plain arm".into(),
+            body(
+                "struct H<'gc>(Cell<Option<C<'gc>>>);\ngc_arena::collect::dyn_collect!(H<'gc>);\n#[derive(Collect)]\n#[collect(no_drop)]\nstruct Root<'gc> { h: Gc<'gc, H<'gc>> }",
+                "Root { h: Gc::new(mc, H(Cell::new(None))) }",
+                "root.h.0.set(Some(child));",
+                "root.h.0.get().is_some()",
+            ),
+        ),
+        (
             "static_collect! on a RefCell holder of a pointer".into(),
             body(
                 "struct H<'a>(RefCell<Option<C<'a>>>);\ngc_arena::static_collect!(<T> H<'gc>);\n#[derive(Collect)]\n#[collect(no_drop)]\nstruct Root<'gc> { h: Gc<'gc, H<'gc>> }",
